@@ -283,8 +283,12 @@ class SdoClient {
     CHECK(c, r.d[0] == 0x60, "dl-init-response", "download initiate answered with command %02X (60h expected)", r.d[0]);
     mux_check(r, idx, sub, "download initiate");
     uint32_t off = 0; uint8_t t = 0;
+    // a client that streams data whose end it learns only afterwards closes a payload of k * 7 bytes with a last segment that carries no data (n = 7, c = 1)
+    // (decided from the fill seed: no extra tape choice)
+    bool empty_last = plen > 0 && plen % 7 == 0 && (fill_seed % 5) == 1; if (empty_last) c.cls("last-segment-without-data");
     do {
-      uint32_t n = std::min<uint32_t>(7, plen - off); bool last = off + n == plen;
+      uint32_t n = std::min<uint32_t>(7, plen - off); bool last = off + n == plen && !empty_last;
+      if (empty_last && off == plen) { n = 0; last = true; }
       // CiA 301: "n = 0 if no segment size is indicated" - with the total size announced in the initiate a client may leave n = 0 in the last segment
       // and the server takes the remainder from the announced size (decided from the fill seed: no extra tape choice)
       bool no_n = last && size_ind && n < 7 && (fill_seed % 3) == 0; if (no_n) c.cls("last-segment-without-size-indication");
@@ -295,7 +299,8 @@ class SdoClient {
       CHECK(c, (g.d[0] & 0xE0) == 0x20, "dl-segment-response", "download segment answered with command %02X (scs 1 expected)", g.d[0]);
       CHECK(c, ((g.d[0] >> 4) & 1) == t, "dl-toggle", "download segment %d acknowledged with toggle %d, expected %d", res.segments, (g.d[0] >> 4) & 1, t);
       off += n; t ^= 1;
-    } while (off < plen);
+      if (last) break;
+    } while (off < plen || empty_last);
     return res;
   }
   // block download; max_losses segments (never the final one of a sub-block) are "lost in transit",
